@@ -147,6 +147,9 @@ def _in_em(I):
     return {'media_type': I.p.fresh_opt('str', 'media_type'), 'log': opt_log(I)}
 
 
+EM.require(media_type_has_no_backslash)
+
+
 @EM.ensure
 def default_by_class(media_type, result):
     return result == default_encoding(texttype_spec(media_type))
